@@ -519,17 +519,37 @@ lemma approxInvLog_log (hk : p.kind = .log) (x : ℝ) : approxInvLog p x = Real.
 lemma approxLog_linear (hk : p.kind = .linear) (v : ℝ) : approxLog p v = linI.aLog v := by
   simp [approxLog, hk, Interp.aLog, linI, bsig]; ring
 
+/-- over the reals the normalisation of `buildFloat64` never changes the value of a significand `≥ 1` -/
+lemma buildFloatN_real (e : ℤ) (s : ℝ) (hs : 1 ≤ s) : Mapping.buildFloatN e s = (2:ℝ) ^ e * s := by
+  unfold Mapping.buildFloatN
+  by_cases h2 : (2:ℝ) ≤ s
+  · simp only [le_def, two_def, h2, decide_true, if_true, buildFloat_def, div_def]
+    rw [zpow_add_one₀ (by norm_num : (2:ℝ) ≠ 0)]; ring
+  · have h1 : ¬ s < 1 := not_lt.2 hs
+    simp [h2, h1]
+
 lemma approxInvLog_linear (hk : p.kind = .linear) (x : ℝ) : approxInvLog p x = linI.aInv x := by
-  simp [approxInvLog, hk, Interp.aInv, linI, add_comm]
+  have h1 : (1:ℝ) ≤ x - ⌊x⌋ + 1 := by linarith [Int.floor_le x]
+  simp only [approxInvLog, hk]
+  rw [show (MOps.add (MOps.sub x (MOps.floor x)) Mapping.one : ℝ) = x - ⌊x⌋ + 1 by simp]
+  rw [buildFloatN_real _ _ h1]
+  simp [Interp.aInv, linI, add_comm]
 
 lemma approxLog_cubic (hk : p.kind = .cubic) (v : ℝ) : approxLog p v = cubI.aLog v := by
   simp [approxLog, hk, Interp.aLog, cubI, bsig, cubφ]; ring
 
 lemma approxInvLog_cubic (hk : p.kind = .cubic) (x : ℝ) : approxInvLog p x = cubI.aInv x := by
   have : approxInvLog p x =
-      MOps.buildFloat (MOps.trunc (MOps.floor x)) (cubSp1 (MOps.sub x (MOps.floor x))) := by
+      Mapping.buildFloatN (MOps.trunc (MOps.floor x)) (cubSp1 (MOps.sub x (MOps.floor x))) := by
     unfold approxInvLog; simp only [hk]; rfl
   rw [this]
+  have ht : (MOps.sub x (MOps.floor x) : ℝ) = x - ⌊x⌋ := by simp
+  have h1 : (1:ℝ) ≤ cubSp1 (MOps.sub x (MOps.floor x)) := by
+    rw [ht]
+    have := (cubI.ψmem (x - ⌊x⌋) (by linarith [Int.floor_le x]) (by linarith [Int.lt_floor_add_one x])).1
+    have e : cubI.ψ (x - ⌊x⌋) = cubSp1 (x - ⌊x⌋) - 1 := rfl
+    rw [e] at this; linarith
+  rw [buildFloatN_real _ _ h1]
   simp [Interp.aInv, cubI]
 
 lemma approxLog_interp (hk : p.kind ≠ .log) (v : ℝ) :
